@@ -456,6 +456,324 @@ def replay_fields_seg(res):
     return d
 
 
+# ================================================================================================================
+# translator_obligation_diag -- the same stage for the `split` methods (C16), Cavity._track_beam (C06, C10) and the Screen / BPM
+# code (C20, C10): harness/translate_diag.py.  Gen/DiagGen.v, Gen/DiagGenEquiv.v and Gen/DiagGenProps.v are cut into PARTS
+# ("split", "cavity", "screen"); a check asks for the parts its property is anchored in, so that e.g. an edit of screen.py does
+# not alarm C16.  Regenerates from common.REPO into the per-process build directory, compiles Equiv/Props AGAINST THE FRESH COPY
+# (the committed Gen/DiagGen.v is never trusted), prints nothing, records into run.cov["translator_diag"].
+# The cavity part calls the generated transfer map: Gen/MapsGen.v is regenerated as well and Gen/MapsGenEquiv.v is re-proved
+# against it in the same build directory.
+DIAG_IMPORT_GEN = "From Cheetah.Gen Require Import DiagGen."
+DIAG_IMPORT_EQV = "From Cheetah.Gen Require Import DiagGenEquiv."
+DIAG_PREREQ = {
+    "split": ["theories/Lattice/Split", "theories/Lattice/SplitProofs"],
+    "cavity": ["theories/Base/Mat", "theories/Optics/Maps", "theories/Gen/GenBase", "theories/Beam/Moments", "theories/Beam/MomCavity",
+               "theories/Beam/MomCavityProofs"],
+    "screen": ["theories/Diag/Screen", "theories/Diag/ScreenProofs"],
+}
+DIAG_BASE = "theories/Gen/DiagGenBase"
+DIAG_TRUSTED = ("source-to-Coq translator harness/translate_diag.py (object reading of split, scalar / per-particle reading of "
+                "Cavity._track_beam, screen reading with the opaque histogram primitive; tables in its docstring): ties Lattice/Split.v, "
+                "Beam/MomCavity.v and Diag/Screen.v to /repo's source text")
+
+
+def _diag_prereq_stale(parts):
+    """Prerequisite theories (of the requested parts) whose .vo is missing or older than its source; Gen/DiagGenBase last."""
+    stale, want = [], []
+    for p in parts:
+        want += [x for x in DIAG_PREREQ.get(p, []) if x not in want]
+    for p in want + [DIAG_BASE]:
+        v, vo = common.COQ / (p + ".v"), common.COQ / (p + ".vo")
+        if not vo.exists() or vo.stat().st_mtime < v.stat().st_mtime:
+            stale.append(p)
+    return stale
+
+
+def translator_obligation_diag(run=None, parts=None, audit="bundle", timeout=200):
+    """Same contract as translator_obligation (statuses ok / translator_failed / equivalence_broken / stage_error, same keys) plus
+    `parts` (the parts compiled) and, for a failure, `part` (the part it belongs to).  parts: any of "split", "cavity", "screen"
+    (default: all).  audit = "bundle": one Print Assumptions over all final statements; "full": one per theorem."""
+    import translate_diag
+    t0 = time.time()
+    parts = tuple(p for p in translate_diag.PARTS if p in (parts or translate_diag.PARTS))
+    res = dict(status="ok", repo=str(common.REPO), parts=list(parts), translated=[], lemmas=[], theorems=[], axioms=[])
+
+    def done():
+        res["wall_s"] = round(time.time() - t0, 2)
+        if run is not None:
+            n = len(res["lemmas"]) + len(res["theorems"]) or 1
+            run.cov["obligations"] += n
+            if res["status"] == "ok":
+                run.cov["discharged"] += n
+            rec = {k: res.get(k) for k in ("status", "parts", "part", "reason", "file", "line", "lemma", "generated_sha256", "committed_copy_stale",
+                                           "translated", "lemmas", "theorems", "axioms", "wall_s")}
+            prev = run.cov.get("translator_diag")
+            run.cov["translator_diag"] = rec if prev is None else (prev if isinstance(prev, list) else [prev]) + [rec]
+            if DIAG_TRUSTED not in run.cov["trusted_base"]:
+                run.cov["trusted_base"].append(DIAG_TRUSTED)
+        return res
+
+    if not parts:
+        res.update(status="stage_error", reason="no known part requested")
+        return done()
+    # 1. translate (pure syntax; nothing of cheetah is imported)
+    maps_text = None
+    try:
+        text, info = translate_diag.generate(common.REPO, parts)
+        if "cavity" in parts:
+            maps_text, _ = translate_maps.generate(common.REPO)
+    except translate_maps.TranslateError as ex:
+        res.update(status="translator_failed", reason=ex.reason, file=ex.file, line=ex.line, part=getattr(ex, "part", "cavity"))
+        return done()
+    except RecursionError:
+        res.update(status="translator_failed", reason="expression nesting too deep for the translator", file=None, line=None)
+        return done()
+    res["translated"] = info
+    res["generated_sha256"] = hashlib.sha256(text.encode()).hexdigest()
+    committed = GEN / "DiagGen.v"
+    res["committed_copy_stale"] = (not committed.exists()) or translate_diag.cut_parts(committed.read_text(), parts) != text
+
+    # 2. prerequisites (hand-written, stable theories the proofs refer to)
+    for p in _diag_prereq_stale(parts):
+        ok, log = common.coq_build(p + ".vo")
+        if not ok:
+            res.update(status="stage_error", reason=f"build of {p}.vo failed: " + log[-800:])
+            return done()
+
+    bdir = common.BUILD / "translate_diag"
+    bdir.mkdir(parents=True, exist_ok=True)
+    for old in list(bdir.glob("DiagGen*")) + list(bdir.glob("MapsGen*")):
+        old.unlink()
+    extra = ["-Q", str(bdir), FRESH]
+
+    def fresh_imports(body):
+        """every import of a regenerated file goes to the fresh copy"""
+        body = body.replace(DIAG_IMPORT_GEN, f"From {FRESH} Require Import DiagGen.").replace(DIAG_IMPORT_EQV, f"From {FRESH} Require Import DiagGenEquiv.")
+        return body.replace(IMPORT_GEN, f"From {FRESH} Require Import MapsGen.").replace(IMPORT_EQV, f"From {FRESH} Require Import MapsGenEquiv.")
+
+    try:
+        eqv_src = translate_diag.cut_parts((GEN / "DiagGenEquiv.v").read_text(), parts)
+        props_src = translate_diag.cut_parts((GEN / "DiagGenProps.v").read_text(), parts)
+        if eqv_src.count(DIAG_IMPORT_GEN) != 1 or props_src.count(DIAG_IMPORT_GEN) != 1 or props_src.count(DIAG_IMPORT_EQV) != 1:
+            raise RuntimeError("DiagGenEquiv.v / DiagGenProps.v: expected exactly one import line of the generated file each")
+        files = []
+        if maps_text is not None:
+            files += [("MapsGen.v", maps_text), ("MapsGenEquiv.v", fresh_imports((GEN / "MapsGenEquiv.v").read_text()))]
+        text_f, eqv, props = fresh_imports(text), fresh_imports(eqv_src), fresh_imports(props_src)
+    except (RuntimeError, OSError) as ex:
+        res.update(status="stage_error", reason=str(ex))
+        return done()
+    if re.search(r"Cheetah\.Gen Require Import (Maps|Diag)Gen", text_f + eqv + props + "".join(b for _, b in files)):
+        res.update(status="stage_error", reason="an import of a regenerated file was not redirected to the fresh copy")
+        return done()
+    res["lemmas"] = re.findall(r"^\s*Lemma\s+(gen_[\w']+)", eqv, flags=re.M)
+    res["theorems"] = re.findall(r"^\s*Theorem\s+([\w']+)", props, flags=re.M)
+    have = {i["coq_name"] for i in info}
+    missing = [c + "_eq" for c in sorted(have) if c + "_eq" not in res["lemmas"]]
+    missing += [lm + " (no such generated definition)" for lm in res["lemmas"] if lm.endswith("_eq") and lm[:-3] not in have]
+    # every equivalence lemma must reach a final statement (a lemma that is stated but not used would not be audited)
+    missing += [lm + " (not used by Gen/DiagGenProps.v)" for lm in res["lemmas"] if not re.search(r"\b" + re.escape(lm) + r"\b", props)]
+    if missing:
+        res.update(status="equivalence_broken", lemma="<missing> " + ", ".join(missing), file="DiagGenEquiv.v", line=0,
+                   coq_error="the regenerated file, Gen/DiagGenEquiv.v and Gen/DiagGenProps.v do not list the same definitions")
+        return done()
+    if audit == "bundle":
+        props = re.sub(r"^Print Assumptions [\w']+\.\s*$", "", props, flags=re.M)
+        props += "\nDefinition trd_all := (" + ", ".join("@" + t for t in res["theorems"]) + ").\nPrint Assumptions trd_all.\n"
+
+    def part_at(body, lineno):
+        name = None
+        for k, ln in enumerate(body.splitlines(), 1):
+            if k > lineno:
+                break
+            m = re.match(r"^\(\*\* PART (\w+) \*\)", ln)
+            if m:
+                name = m.group(1)
+        return name
+
+    # 3. compile the fresh transcription(s), then the proofs against them
+    out = ""
+    for name, body in files + [("DiagGen.v", text_f), ("DiagGenEquiv.v", eqv), ("DiagGenProps.v", props)]:
+        path = bdir / name
+        path.write_text(body)
+        rc, out, err = common.coqc(path, extra=extra, timeout=timeout)
+        if rc != 0:
+            m = re.search(r'line (\d+), characters', err or "")
+            ln = int(m.group(1)) if m else 0
+            if name in ("DiagGen.v", "MapsGen.v"):
+                res.update(status="translator_failed", reason="generated file does not compile: " + (err or "")[-600:], file=name, line=ln,
+                           part=part_at(body, ln) if name == "DiagGen.v" else "cavity")
+                return done()
+            _coq_failure(res, path, body, rc, err)
+            res["part"] = part_at(body, ln) if name.startswith("Diag") else "cavity"
+            return done()
+    closed, axioms = _assumptions(out)
+    res["axioms"] = sorted(axioms)
+    bad = sorted(a for a in axioms if a not in common.AXIOM_WHITELIST and a.split(".")[-1] not in common.AXIOM_WHITELIST)
+    if parts == ("split",) or parts == ("screen",) or parts == ("split", "screen"):
+        bad = sorted(axioms)                    # the parts over Q / Z need no axiom at all
+    forbidden = re.compile(r"\b(Admitted|admit|Axiom|Axioms|Parameter|Parameters|Conjecture|Unset Guard Checking|bypass_check)\b")
+    for f in ("DiagGenBase.v", "DiagGenEquiv.v", "DiagGenProps.v"):
+        body = re.sub(r"\(\*.*?\*\)", "", (GEN / f).read_text(), flags=re.S)
+        bad += [f"{m.group(1)} in Gen/{f}" for m in forbidden.finditer(body)]
+    if forbidden.search(text):
+        bad.append("forbidden vernacular in the generated text")
+    if bad or (not axioms and not closed):
+        res.update(status="stage_error", reason=f"axiom audit failed: {bad or 'no Print Assumptions output'}")
+    return done()
+
+
+def replay_fields_diag(res):
+    """Compact, JSON-able description of a non-ok result of translator_obligation_diag for a replay/violation record."""
+    keep = ("status", "part", "parts", "reason", "file", "line", "lemma", "coq_error", "generated_sha256")
+    d = {k: res[k] for k in keep if res.get(k) is not None}
+    d["kind"] = "translator_diag"
+    model = {"split": "Lattice/Split.v", "cavity": "Beam/MomCavity.v", "screen": "Diag/Screen.v"}.get(res.get("part"), "hand-written model")
+    d["broken"] = ("source left the translated fragment: " + str(res.get("reason"))) if res["status"] == "translator_failed" else \
+        (f"Gen/{res.get('file') or 'DiagGenEquiv.v'} {res.get('lemma')}: regenerated definition <> {model}" if res["status"] == "equivalence_broken"
+         else str(res.get("reason")))
+    return d
+
+
+# ================================================================================================================
+# translator_obligation_conv -- the same stage for the lattice converters and LatticeJSON (harness/translate_conv.py).
+# Regenerates Gen/ConvGen.v from the CURRENT source text of common.REPO into the per-process build directory, compiles it, and
+# compiles Gen/ConvGenEquiv.v and Gen/ConvGenProps.v AGAINST THE FRESH COPY (the committed Gen/ConvGen.v is never trusted).
+# Same result structure and statuses as translator_obligation; prints nothing; records what was translated in
+# run.cov["translator_conv"].  Used by C13 and C14.
+CONV_IMPORT_GEN = "From Cheetah.Gen Require Import ConvGen."
+CONV_IMPORT_EQV = "From Cheetah.Gen Require Import ConvGenEquiv."
+CONV_PREREQ = ["theories/Parse/LatticeLang", "theories/Parse/Lines", "theories/Ops/Json", "theories/Gen/ConvGenBase"]
+CONV_TRUSTED = ("source-to-Coq translator harness/translate_conv.py (reading, construct table and constructor table in its docstring and in "
+                "Gen/ConvGenBase.v): ties Parse/LatticeLang.v (convert_bmad_v all_fixes, convert_elegant, expand_v), Parse/Lines.v "
+                "(merge_fixed, clean) and Ops/Json.v (conv, parse, document, load) to /repo's source text")
+
+
+def _conv_prereq_fresh():
+    mt = {}
+    for p in CONV_PREREQ:
+        v, vo = common.COQ / (p + ".v"), common.COQ / (p + ".vo")
+        if not vo.exists() or vo.stat().st_mtime < v.stat().st_mtime:
+            return False
+        mt[p] = vo.stat().st_mtime
+    return all(mt[p] <= mt["theories/Gen/ConvGenBase"] for p in CONV_PREREQ)
+
+
+def translator_obligation_conv(run=None, audit="bundle", timeout=200):
+    """Same contract as translator_obligation (statuses ok / translator_failed / equivalence_broken / stage_error, same keys), for
+    bmad.convert_element, elegant.convert_element, the line front end of fortran_namelist.py and latticejson.py
+    (harness/translate_conv.py).  Records into run.cov["translator_conv"].  Prints nothing."""
+    import translate_conv
+    t0 = time.time()
+    res = dict(status="ok", repo=str(common.REPO), translated=[], lemmas=[], theorems=[], axioms=[])
+
+    def done():
+        res["wall_s"] = round(time.time() - t0, 2)
+        if run is not None:
+            n = len(res["lemmas"]) + len(res["theorems"]) or 1
+            run.cov["obligations"] += n
+            if res["status"] == "ok":
+                run.cov["discharged"] += n
+            run.cov["translator_conv"] = {k: res.get(k) for k in ("status", "reason", "file", "line", "lemma", "generated_sha256", "committed_copy_stale",
+                                                                    "translated", "lemmas", "theorems", "axioms", "wall_s")}
+            if CONV_TRUSTED not in run.cov["trusted_base"]:
+                run.cov["trusted_base"].append(CONV_TRUSTED)
+        return res
+
+    # 1. translate (pure syntax; nothing of cheetah is imported)
+    try:
+        text, info = translate_conv.generate(common.REPO)
+    except translate_maps.TranslateError as ex:
+        res.update(status="translator_failed", reason=ex.reason, file=ex.file, line=ex.line)
+        return done()
+    except RecursionError:
+        res.update(status="translator_failed", reason="nesting too deep for the translator", file=None, line=None)
+        return done()
+    res["translated"] = info
+    res["generated_sha256"] = hashlib.sha256(text.encode()).hexdigest()
+    committed = GEN / "ConvGen.v"
+    res["committed_copy_stale"] = (not committed.exists()) or committed.read_text() != text
+
+    # 2. prerequisites (hand-written, stable)
+    if not _conv_prereq_fresh():
+        ok, log = common.coq_build("theories/Gen/ConvGenBase.vo")
+        if ok:
+            ok, log = common.coq_build("theories/Parse/Lines.vo")
+        if not ok:
+            res.update(status="stage_error", reason="build of the prerequisites of Gen/ConvGen failed: " + log[-800:])
+            return done()
+
+    bdir = common.BUILD / "translate_conv"
+    bdir.mkdir(parents=True, exist_ok=True)
+    for old in bdir.glob("ConvGen*"):
+        old.unlink()
+    extra = ["-Q", str(bdir), FRESH]
+    try:
+        eqv = _redirect((GEN / "ConvGenEquiv.v").read_text(), CONV_IMPORT_GEN, f"From {FRESH} Require Import ConvGen.", "ConvGenEquiv.v")
+        props = _redirect((GEN / "ConvGenProps.v").read_text(), CONV_IMPORT_GEN, f"From {FRESH} Require Import ConvGen.", "ConvGenProps.v")
+        props = _redirect(props, CONV_IMPORT_EQV, f"From {FRESH} Require Import ConvGenEquiv.", "ConvGenProps.v")
+    except (RuntimeError, OSError) as ex:
+        res.update(status="stage_error", reason=str(ex))
+        return done()
+    res["lemmas"] = re.findall(r"^\s*Lemma\s+(gen_[\w']+)", eqv, flags=re.M)
+    res["theorems"] = re.findall(r"^\s*Theorem\s+([\w']+)", props, flags=re.M)
+    # every generated definition (the functions and the outlined branches of the two dispatches) needs its lemma <name>_eq,
+    # every lemma <name>_eq a generated definition, and every equivalence lemma must reach a final statement
+    have = set(re.findall(r"^Definition\s+(gen_[\w']+)", text, flags=re.M))
+    missing = [c + "_eq" for c in sorted(have) if c + "_eq" not in res["lemmas"]]
+    missing += [lm + " (no such generated definition)" for lm in res["lemmas"] if lm.endswith("_eq") and lm[:-3] not in have]
+    missing += [lm + " (not used by Gen/ConvGenProps.v)" for lm in res["lemmas"] if not re.search(r"\b" + re.escape(lm) + r"\b", props)]
+    if missing:
+        res.update(status="equivalence_broken", lemma="<missing> " + ", ".join(missing), file="ConvGenEquiv.v", line=0,
+                   coq_error="the regenerated file, Gen/ConvGenEquiv.v and Gen/ConvGenProps.v do not list the same definitions "
+                             "(an element type was added, removed or renamed in a dispatch, or a translated function is gone)")
+        return done()
+    if audit == "bundle":
+        props = re.sub(r"^Print Assumptions [\w']+\.\s*$", "", props, flags=re.M)
+        props += "\nDefinition trc_all := (" + ", ".join(res["theorems"]) + ").\nPrint Assumptions trc_all.\n"
+
+    # 3. compile the fresh transcription, then the proofs against it
+    out = ""
+    for name, body in (("ConvGen.v", text), ("ConvGenEquiv.v", eqv), ("ConvGenProps.v", props)):
+        path = bdir / name
+        path.write_text(body)
+        rc, out, err = common.coqc(path, extra=extra, timeout=timeout)
+        if rc != 0:
+            if name == "ConvGen.v":
+                m = re.search(r'line (\d+), characters', err or "")
+                res.update(status="translator_failed", reason="generated file does not compile: " + (err or "")[-600:],
+                           file="ConvGen.v", line=int(m.group(1)) if m else 0)
+                return done()
+            _coq_failure(res, path, body, rc, err)
+            return done()
+    closed, axioms = _assumptions(out)
+    res["axioms"] = sorted(axioms)
+    # the converter models compute in binary64 PrimFloat: Print Assumptions lists the kernel's primitive floats / 63-bit integers and
+    # the standard library's axioms that specify them (as for Props/C13.v); anything else fails the audit
+    bad = sorted(a for a in axioms if not a.startswith(common.PRIMITIVE_PREFIXES))
+    forbidden = re.compile(r"\b(Admitted|admit|Axiom|Axioms|Parameter|Parameters|Conjecture|Unset Guard Checking|bypass_check)\b")
+    for f in ("ConvGenBase.v", "ConvGenEquiv.v", "ConvGenProps.v"):
+        body = re.sub(r"\(\*.*?\*\)", "", (GEN / f).read_text(), flags=re.S)
+        bad += [f"{m.group(1)} in Gen/{f}" for m in forbidden.finditer(body)]
+    if forbidden.search(re.sub(r"\(\*.*?\*\)", "", text, flags=re.S)):
+        bad.append("forbidden vernacular in the generated text")
+    if bad or not (closed or axioms):
+        res.update(status="stage_error", reason=f"axiom audit failed: {bad or 'no Print Assumptions output'}")
+    return done()
+
+
+def replay_fields_conv(res):
+    """Compact, JSON-able description of a non-ok result of translator_obligation_conv for a replay/violation record."""
+    keep = ("status", "reason", "file", "line", "lemma", "coq_error", "generated_sha256")
+    d = {k: res[k] for k in keep if res.get(k) is not None}
+    d["kind"] = "translator_conv"
+    d["broken"] = ("source left the translated fragment: " + str(res.get("reason"))) if res["status"] == "translator_failed" else \
+        (f"Gen/ConvGenEquiv.v {res.get('lemma')}: regenerated definition <> hand-written model (Parse/LatticeLang.v, Parse/Lines.v, Ops/Json.v)"
+         if res["status"] == "equivalence_broken" else str(res.get("reason")))
+    return d
+
+
 if __name__ == "__main__":
     import json
     import sys
